@@ -35,7 +35,7 @@ def check(reg, ns, wfun, gamma, desc, X):
         h = lmi.hinf_norm(A, B, wfun=wfun)
         if h > float(gamma) * (1 + 2e-4) + 1e-6:
             return dict(what='true (weighted) H-infinity norm exceeds the reported gamma_', hinf_norm=h, gamma=float(gamma))
-    k = lmi.log_monotone(reg.objective_log_)
+    k = lmi.log_defect(reg, X, B.shape[1])
     if k is not None:
         return dict(what='logged objective increases between iterations', log=list(map(float, reg.objective_log_)), at=k)
     return None
@@ -168,7 +168,7 @@ def run(res, tier):
               '|W| sigma_max(G) <= gamma_ (the filter is rebuilt independently from the documented meaning of the parameters), '
               'objective log non-increasing. Half of the fits use a loose iter_atol (1e-2, 1e-1) with max_iter 6 / 12 so that the '
               'loop leaves on its tolerance test.'),
-        samples=samples, input_distribution=dist)
+        samples=samples, input_distribution=dist, log_increases_explained_by_the_strictness_margin=lmi.MARGIN_HITS[0])
     res.assumptions += ['a frequency grid gives a lower bound of the H-infinity norm: it can expose a violated bound, the upper bound '
                         'comes from the bounded-real certificate (time-domain part proved in AlgR/Dissip.v; l2 gain = H-infinity '
                         'norm and the P^-1 congruence are not machine-checked)',
